@@ -305,6 +305,16 @@ def eval_post_spec(d):
         st = _engine(backend).run(_build(n, pre, tail)).state
         live = [m for m in range(n) if m not in deleted]
         v = _vac_and_uncorrelated(st, backend, [live.index(t)], len(live), tol if not fock else 2e-2)
+        if v is None and sel and not fock:
+            # "changes the rest only by the conditional update a measurement outcome implies":
+            # compare with the textbook conditional Gaussian state (independent numpy calculation)
+            from props.c01 import reference as _ref
+            mcmd = ["MeasureHomodyneSel", [d["angle"], 0.3], [t], False] if kind == "homodyne" else ["MeasureHeterodyneSel", [0.2, 0.1], [t], False]
+            spec = {"n": n, "cmds": list(pre) + [["Del", [], [m], False] for m in deleted] + [mcmd]}
+            mr, cr = _ref(spec)
+            m1, c1 = bc.gauss_obs(st)
+            if max(np.abs(m1 - mr).max(), np.abs(c1 - cr).max()) > 2e-5:
+                v = "rest-not-conditional-state"
         return "measure:%s:%s:%s" % (backend.split("-")[0], kind, v) if v else None
     if kind == "fock":
         targets = d["targets"]
